@@ -23,10 +23,10 @@ CLAIMS = {
              "DESIGN.md §3 C03", "harness/src/bin/c03.rs"),
     "C04": C("differential testing vs naive search and str::find/rfind/split_once: exhaustive small-alphabet enumeration + seeded proptest",
              "All haystacks x needles over 2-3 symbol alphabets up to length 10/4 (every self-overlap structure of short needles), UTF-8 text incl. chars sharing lead bytes, through all four pattern kinds and all 18 search-derived functions; derived results compared by address.",
-             "DESIGN.md §3 C04", "harness/src/bin/c04.rs"),
+             "DESIGN.md §3 C04, §9.2", "harness/src/bin/c04.rs, progs/gen_deep.py"),
     "C05": C("differential testing vs std starts_with/strip_*/trim_ascii*/trim_*_matches: exhaustive enumeration + seeded proptest",
              "All inputs x patterns over small alphabets (incl. every ASCII whitespace/control byte class and all 256 byte values at the edges), all four pattern kinds; results compared by address with std; two-sided trim_matches with multi-char patterns must equal one of the two compositions of the one-sided std functions.",
-             "DESIGN.md §3 C05", "harness/src/bin/c05.rs"),
+             "DESIGN.md §3 C05, §9.2", "harness/src/bin/c05.rs, progs/gen_deep.py"),
     "C07": C("complete enumeration of char/u32 conversions + model-based history testing of chars/char_indices vs std",
              "Every char through encode_utf8 and every u32 < 0x120000 through from_u32 (complete); all strings up to 5-6 chars over one char per UTF-8 length x all front/back histories for chars/char_indices/their reversed types, as_str() compared by address after every step.",
              "DESIGN.md §3 C07", "harness/src/bin/c07.rs"),
@@ -38,13 +38,13 @@ CLAIMS = {
              "DESIGN.md §3 C09", "harness/src/bin/c09.rs"),
     "C12": C("differential testing vs str::parse and a reference prefix scanner: exhaustive 8/16-bit values and short strings, boundary neighbourhoods, seeded proptest",
              "Every value of the 8/16-bit types in several spellings, all strings up to 4-5 symbols over {0,1,9,-,+,a,' ',non-ASCII digit} for all 12 integer types and bool, MIN/MAX +-12 neighbourhoods with extra digits/zeros/suffixes for all types (decimal-string arithmetic for 128-bit); whole-string and Parser prefix parsing incl. offsets and error position.",
-             "DESIGN.md §3 C12", "harness/src/bin/c12.rs"),
+             "DESIGN.md §3 C12, §9.2", "harness/src/bin/c12.rs, progs/gen_deep.py"),
     "C01": C("generated-input search with post-condition oracles (sub-range / UTF-8 / char-boundary / valid scalar) + the same corpus under Miri as UB observer",
              "A table of every safe public item that reaches an unsafe block (slice/str slicing, byte-pattern and str functions in all pattern kinds, split/chars/slice iterators, chr, CStr, maybe_uninit, manually_drop, ptr::nonnull, array/collect/from_iter/destructure macros, Parser) is driven with edge index sets (incl. usize::MAX), five element types (incl. ZST and Drop) and constructed UTF-8; every returned slice/str must lie inside its argument, be valid UTF-8 on char boundaries; unexpected panics and harness aborts caused by std's unsafe-precondition checks are violations; a compact corpus of the same calls runs under Miri, and 600+ generated `const` items over 34 call templates are evaluated by rustc's const evaluator (UB = hard error) and compared with their run-time value.",
-             "DESIGN.md §3 C01, §9.2", "harness/src/bin/c01.rs (+ Miri), progs/gen_const.py"),
+             "DESIGN.md §3 C01, §9.2", "harness/src/bin/c01.rs (+ Miri), harness/src/bin/c11.rs --property C01, progs/gen_const.py, progs/gen_closure_exits.py, progs/gen_destructure.py (packed structs under Miri)"),
     "C06": C("model-based history testing vs str::split family: exhaustive strings x delimiters, all front/back histories for char delimiters",
              "All strings up to 7 chars over {a,b,é} x all &str delimiters up to 3 chars (incl. empty, overlapping) and char delimiters: split/rsplit/split_terminator/rsplit_terminator pieces compared by address with std step by step, remainder() after every step, rev() forms, and every front/back interleaving of split/rsplit for char delimiters.",
-             "DESIGN.md §3 C06", "harness/src/bin/c06.rs"),
+             "DESIGN.md §3 C06, §9.2", "harness/src/bin/c06.rs, progs/gen_deep.py"),
     "C10": C("differential testing of generated programs: typed chain grammar rendered as konst DSL and as the identical std chain, compared on enumerated inputs",
              "A committed pairwise corpus (every adapter x every consumer) plus seeded random chains (depth <= 5, 14 sources, 13 adapters, 13 consumers, all closure forms, eval!/for_each!, and a const-context collect_const! batch) are compiled against /repo and run on all small inputs; disagreements are attributed to the listed known finding only when the chain has its structural signature and equals the source-reversed alternative model.",
              "DESIGN.md §3 C10", "progs/gen_chain.py"),
@@ -59,7 +59,7 @@ CLAIMS = {
              "DESIGN.md §3 C13/C14", "harness/src/bin/c13.rs --property C14"),
     "C15": C("stateful testing with a drop ledger: exhaustive consumer/builder histories, generated destructure! programs, Miri",
              "All ArrayConsumer op sequences (next/next_back/as_slice/swap/clone/drop/assert_is_empty) up to depth 5-6 and ArrayBuilder sequences over a ledger-tracked Drop type, map_!/from_fn_! with a closure panicking at every element, and 800+ generated destructure! programs (braced/tuple structs, tuples to 16, arrays with rest/..; packed, generic, ZST, nested fields; `_` positions) whose in-program ledger must show every id dropped exactly once, `_`-matched ids dropped right after the statement; thorough reruns under Miri.",
-             "DESIGN.md §3 C15", "harness/src/bin/c11.rs --property C15, progs/gen_destructure.py"),
+             "DESIGN.md §3 C15, §9.2", "harness/src/bin/c11.rs --property C15, progs/gen_destructure.py (+ a Miri batch of packed structs in the quick tier)"),
     "C17": C("generated compile-fail programs with minimally different controls; rustc verdicts as oracle",
              "Nine guard families (660+ programs): each invalid invocation must be rejected by rustc and its control (offending element removed) must compile; each program is compiled alone against the konst rlib built from /repo. A failing control is a harness error (exit 2), never a violation.",
              "DESIGN.md §3 C17", "progs/gen_reject.py"),
@@ -71,10 +71,10 @@ CLAIMS = {
              "DESIGN.md §3 C19", "harness/src/bin/c19.rs, progs/gen_rebind.py"),
     "C20": C("complete enumeration of CStr inputs vs core::ffi::CStr + generated const programs for the concat/join macros vs std",
              "All byte strings up to length 7 over {0,'a',0xFF} and up to 5 over a UTF-8-relevant alphabet for the CStr constructors/views; 800+ generated const items for str_concat!/str_join!/string::from_iter!/slice_concat! (all argument forms, empty lists/pieces, multi-byte separators) compared with concat/join/collect at run time.",
-             "DESIGN.md §3 C20", "harness/src/bin/c20.rs, progs/gen_concat.py"),
+             "DESIGN.md §3 C20, §9.2", "harness/src/bin/c20.rs, progs/gen_concat.py, progs/gen_deep.py"),
     "C16": C("differential testing vs PartialEq/Ord on boundary-value tables: all pairs, all Option combinations, all triples for the order laws",
              "Every public eq_*/cmp_* function (14 scalar types, their slices, Option variants, NonZero, ranges, Ordering, str, &[&str], &[&[u8]]) and const_eq!/const_cmp!/const_eq_for!/const_cmp_for!/assertc_* forms over all pairs of boundary values and all pairs of slices of length <= 3, plus antisymmetry/transitivity over all triples.",
-             "DESIGN.md §3 C16", "harness/src/bin/c16.rs"),
+             "DESIGN.md §3 C16, §9.2", "harness/src/bin/c16.rs, progs/gen_deep.py"),
 }
 
 PENDING_REASON = "check not built yet in this session (planned in DESIGN.md §3); will be claimed once its engine exists and is silent on the unchanged tree"
@@ -117,7 +117,7 @@ def main():
              "kind_free_text": "python3 grammar-based program generators + driver: generated Rust is compiled from /repo's tree by cargo/rustc and executed (or must fail to compile); descriptors shrink by batch delta debugging"},
         ],
         "checks": checks,
-        "notes": "All checks: exit 0 held / exit 1 + VIOLATION line / exit 2 infrastructure trouble. Known findings are in /verif/known_findings.txt.",
+        "notes": "All checks: exit 0 held / exit 1 + VIOLATION line / exit 2 infrastructure trouble. Known findings are in /verif/known_findings.txt. Every in-process engine runs in two builds in both tiers (dev: debug assertions + overflow checks; release: neither), on a 2 MiB thread stack; the program engines have the same two profiles. Beyond their exhaustive bounds all engines share the planted families described in DESIGN.md 9.7 (single-point differences on long inputs, inputs longer than 2^16, indices / lengths / sizes congruent to small values modulo 2^8, 2^16, 2^32, one char per UTF-8 lead byte, chars differing in one encoded byte, NUL, effectful macro arguments, caller constants named like the macros' helper items, const evaluation of long inputs). tools/run_all.sh <quick|thorough> runs every check in turn; the last full thorough run on the unchanged tree took 85 min and was silent.",
         "not_applicable": na,
     }
     with open(os.path.join(VERIF, "MANIFEST.json"), "w") as f:
